@@ -228,7 +228,7 @@ class Check:
 
     def finish(self, level="proof", trusted=(), explanation=None):
         for sig, what in sorted(self.known_hits.items()):
-            print("KNOWN-FINDING: property=%s %s" % (self.pid, what))
+            print("KNOWN-FINDING: property=%s %s [%s]" % (self.pid, what, sig))
         # broken obligations / correspondence without a failing input are reported last
         concrete = [v for v in self.violations if v["found_input"]]
         broken = [v for v in self.violations if not v["found_input"]]
